@@ -32,7 +32,7 @@ func c15FastPath(c *Ctx, p *Prog, cp *packages.Package) {
 				ret = r
 			}
 		}
-		lo, hi, ok := boundsOf(cp.TypesInfo, ret)
+		lo, hi, ok := boundsOf(p, cp, ret)
 		if !ok {
 			c.Undecided(rule, w.fn, p.Pos(fd.Pos()), "the function does not return `L <= x && x <= U` with constant bounds")
 			continue
